@@ -3,7 +3,7 @@
 import json, os, sys
 V = os.path.dirname(os.path.dirname(os.path.abspath(__file__)))
 sys.path.insert(0, os.path.join(V, "tools"))
-from manifest_table import CHECKS, NA
+from manifest_table import CHECKS, NA, EXTRA
 
 MC = "model_checking"
 
@@ -35,8 +35,8 @@ def main():
               "evidence_file": "/verif/evidence/%s.json" % pid,
               "replay_cmd_template": "tools/check %s --replay {path}" % pid,
               "engine": "tlc",
-              "level_claimed": {"category": c.get("level", MC), "text": c["text"], "design_ref": c.get("ref", "")},
-              "level_note": c["note"], "technique": c["technique"]})
+              "level_claimed": {"category": c.get("level", MC), "text": c["text"] + (" " + EXTRA[pid] if pid in EXTRA else ""), "design_ref": c.get("ref", "")},
+              "level_note": c["note"] + " Executions accepted by an implementation-level trace spec are always validated against the property-level spec as well (DESIGN R1, 9.10).", "technique": c["technique"]})
         else:
             m["not_applicable"].append({"property_id": pid, "reason": NA.get(pid, "check under construction in this session; not yet registered")})
     json.dump(m, open(os.path.join(V, "MANIFEST.json"), "w"), indent=1)
